@@ -191,6 +191,12 @@ def enum_configs(tier):
         for k in range(0, n + 1):
             if n <= 4 or k <= 2:
                 cfgs.append(["sr_sample", n, k])
+    # populations with equal elements (legal: "unique elements" are chosen by position, as random.sample does):
+    # the selection is judged over positions, told apart by object identity
+    for values in ([7, 7, 9], [7, 7, 7], [1, 2, 1, 2], [5, 5, 6, 6, 5], [0, 0]):
+        for k in range(1, len(values) + 1):
+            if len(values) <= 4 or k <= 2:
+                cfgs.append(["sr_sample_dup", values, k])
     return cfgs
 
 
@@ -270,6 +276,14 @@ def enum_target(cfg):
         n, k = cfg[1], cfg[2]
         # judged as an unordered selection: the documentation promises unique elements, not an order
         return (lambda rf: tuple(sorted(StrongRandom(randfunc=rf).sample(list(range(n)), k)))), set(itertools.combinations(range(n), k)), "StrongRandom.sample"
+    if kind == "sr_sample_dup":
+        values, k = cfg[1], cfg[2]
+        pop = [tuple([v, "x"]) for v in values]       # equal values, distinct objects
+        pos = dict((id(o), i) for i, o in enumerate(pop))
+
+        def f(rf):
+            return tuple(sorted(pos[id(o)] for o in StrongRandom(randfunc=rf).sample(pop, k)))
+        return f, set(itertools.combinations(range(len(values)), k)), "StrongRandom.sample(population with equal elements)"
     raise ValueError(kind)
 
 
@@ -366,7 +380,7 @@ class Machine(object):
                             "the same number" % (name, cfg[1:], hi, first.get(hi, 0), lo, first.get(lo, 0)),
                             observed="max %d min %d" % (max(counts), min(counts)), expected="equal pre-image counts")
             ctx.probe("enum_first_level_uniform")
-        if cfg[0] not in ("sr_shuffle", "sr_sample"):
+        if cfg[0] not in ("sr_shuffle", "sr_sample", "sr_sample_dup"):
             # single-draw samplers: a retry after a rejection must depend on fresh bytes only, so every sampled retry
             # sub-tree is a sampler of its own and must pass the first-attempt criterion as well
             for r, cnt in sorted(explore.retry_roots.items()):
